@@ -39,6 +39,11 @@ def one(n):
     for f in touched:
         for c in FILES.get(f, []) + (["C19"] if "kafka" in f else []):
             if c not in checks: checks.append(c)
+    only = os.environ.get("BEN_ONLY")
+    if only:
+        checks = [c for c in checks if c in only.split(",")]
+        if not checks:
+            return n, ""
     r = subprocess.run([VERIF_HOME + "/tools/benign_try.sh", patch, n, tier] + checks, stdout=subprocess.PIPE, stderr=subprocess.STDOUT, text=True)
     return n, r.stdout
 rows = []
@@ -52,7 +57,7 @@ with cf.ThreadPoolExecutor(int(os.environ.get("BEN_PAR", "3"))) as ex:
             exp = json.load(open(mp)).get("expected_alarms", {})
         rows.append((n, ", ".join("%s %s" % (c, "silent" if e == "0" else ("alarm, expected: " + exp[c]) if c in exp else "ALARM(exit %s)" % e) for c, e in res)))
 if not sys.argv[2:]:
-    with open(os.path.join(d, "RESULTS.md"), "w") as f:
+    with open(os.path.join(d, "RESULTS.md" if not os.environ.get("BEN_ONLY") else "RESULTS-" + os.environ.get("BEN_TAG", "partial") + ".md"), "w") as f:
         f.write("# Property-preserving changes (independent sub-agents) and the %s checks run against them\n\n" % tier)
         f.write("Every check listed must stay silent (exit 0). See DESIGN.md 8.8.\n\n| change | checks |\n|---|---|\n")
         for r in rows:
